@@ -335,13 +335,21 @@ class MeasuredParameter(sympy.Symbol):
 
     def __new__(cls, regref):
         # sympy.Basic.__new__ wants a name, other arguments must not end up in self._args
-        return super().__new__(cls, "q" + str(regref.ind))
+        # NOTE: sympy caches Symbol instances by name. Bypass the cache, otherwise the measured
+        # parameters of two Programs referring to the same subsystem index would be one and the
+        # same object, linked to the RegRef of whichever Program was created last.
+        return sympy.Symbol.__xnew__(cls, "q" + str(regref.ind))
 
     def __init__(self, regref):
         if not regref.active:
             raise ValueError("Trying to use an inactive RegRef.")
         #: RegRef: the value of the parameter depends on this RegRef, and can only be evaluated after the corresponding subsystem has been measured
         self.regref = regref
+
+    def _hashable_content(self):
+        # measured parameters are equal iff they refer to the same RegRef object, not just to
+        # the same subsystem index (sympy also caches expressions by the hash of their atoms)
+        return super()._hashable_content() + (id(self.regref),)
 
     def _sympystr(self, printer):
         """Blackbird notation.
